@@ -73,7 +73,9 @@ def td_streams(tier, seed):
 def phybo_streams(tier, seed):
     rng = random.Random(seed + 3)
     n = 60 if tier == "quick" else 1000
-    return [("phybo_get_GLS", [gl.gen_phybo_case(rng) for _ in range(n)], "phybo_case", "phybo_case_code")]
+    h = 40 if tier == "quick" else 600
+    return [("phybo_get_GLS", [gl.gen_phybo_case(rng) for _ in range(n)], "phybo_case", "phybo_case_code"),
+            ("phybo_history", [gl.gen_phybo_history_case(rng) for _ in range(h)], "phybo_case", "phybo_case_code")]
 
 
 def corpus_streams(kinds):
